@@ -480,7 +480,12 @@ def pytest_sessionfinish(session, exitstatus):
                     diff = file.diff()
                     if diff:
                         header()
-                        name = file.filename.relative_to(Path.cwd())
+                        name = file.filename
+                        try:
+                            name = name.relative_to(Path.cwd())
+                        except ValueError:
+                            # pytest was started in a directory which does not contain the file
+                            pass
                         console().print(
                             Panel(
                                 Syntax(diff, "diff", theme="ansi_light"),
